@@ -99,3 +99,22 @@ Theorem C11_probe_truthful_in_every_factory :
     (World.e_can_put w e = false -> snd (StoreB.step (FactoryProbe.synced w e ev) (StoreB.RPut p 0)) = []).
 Proof. exact FactoryProbe.probe_decides_grant_everywhere. Qed.
 Print Assumptions C11_probe_truthful_in_every_factory.
+
+(* The kernel contract behind the delay theorems above (their legality condition "a timer event is processed exactly when due"),
+   proved of the kernel model L0 itself (theories/Kernel/KernelTimer.v): an event created by timeout(d) is processed at exactly
+   creation time + d along EVERY sequence of kernel operations (event creation, timeouts, succeed, callbacks, any_of conditions,
+   Resource requests / releases, pops) -- nothing can schedule it a second time --, and while its queue entry is there the clock
+   has not passed that time.  (The factory model makes one more kind of kernel transition, a finishing process scheduling its own
+   completion event; that one is not covered here.) *)
+From FV Require Kernel KernelTimer.
+Theorem C11_timer_processed_exactly_when_due :
+  forall k d k1 e, KernelTimer.QRefs k -> Kernel.timeout k d = (k1, e) ->
+  forall k2 k3 cbs, KernelTimer.ksteps k1 k2 -> Kernel.pop k2 = Some (k3, e, cbs) -> Kernel.now k3 = (Kernel.now k + d)%Z.
+Proof. exact KernelTimer.timeout_processed_exactly_when_due. Qed.
+Print Assumptions C11_timer_processed_exactly_when_due.
+
+Theorem C11_timer_not_overtaken :
+  forall k d k1 e, KernelTimer.QRefs k -> Kernel.timeout k d = (k1, e) ->
+  forall k2, KernelTimer.ksteps k1 k2 -> Kernel.QInv k2 -> KernelTimer.Queued k2 e -> (Kernel.now k2 <= Kernel.now k + d)%Z.
+Proof. exact KernelTimer.timeout_not_overtaken. Qed.
+Print Assumptions C11_timer_not_overtaken.
